@@ -15,7 +15,7 @@ LEVEL_TEXT = (
     'the predecessor at the index of the acting actor; no-op elision is restricted to non-ordered '
     'networks. User handlers and value-level equality of successors are not decided.')
 
-FLOORS = {'C06-R1': 12, 'C06-R2': 4, 'C06-R3': 8, 'C06-R4': 10, 'C06-R5': 4}
+FLOORS = {'C06-R1': 12, 'C06-R2': 4, 'C06-R3': 8, 'C06-R4': 10, 'C06-R5': 4, 'C06-R6': 13}
 
 
 def r1_table(ctx, F):
@@ -342,6 +342,84 @@ def r5_noop(ctx, F):
               bad='is_no_op_with_timer no longer requires exactly one command re-arming the fired timer')
 
 
+def r6_primitives(ctx, F):
+    """the small primitives the transition function is built from do what their names say"""
+    rule = 'C06-R6'
+    # Out::<A>::{..} push exactly one Command of the right kind carrying the parameters in order
+    table = {'send': ('Send', 2), 'set_timer': ('SetTimer', 2), 'cancel_timer': ('CancelTimer', 1),
+             'choose_random': ('ChooseRandom', 2), 'remove_random': ('ChooseRandom', 1)}
+    for name, (variant, nparams) in table.items():
+        b = F.body('actor::Out::<A>::%s' % name)
+        ctx.touched(b)
+        pushes = b.calls_to('Vec::push')
+        ok = len(pushes) == 1 and not b.in_cycle(pushes[0].bb)
+        detail = ''
+        if ok:
+            recv = noref(b.val(pushes[0].args[0]))
+            cmd = b.val(pushes[0].args[1])
+            ok = recv.kind == 'arg' and recv.key == 1 and recv.fields() == ('.0',) and cmd.kind == 'agg' and \
+                cmd.key[1] == 'actor::Command' and cmd.key[2] == variant
+            if ok:
+                ops = [noref(b.trace(o, ('Into::into', 'From::from'))) for o in cmd.key[3]]
+                for k in range(nparams):
+                    if not (ops[k].kind == 'arg' and ops[k].key == 2 + k):
+                        ok = False
+                        detail = 'operand %d of Command::%s is %r' % (k, variant, ops[k])
+                if name == 'remove_random' and ok:
+                    c = b.call_at(ops[1].key) if ops[1].kind == 'call' else None
+                    ok = c is not None and c.is_('Vec::new', 'vec::from_elem', 'Vec::with_capacity') or \
+                        (ops[1].kind == 'agg')
+        ctx.check(ok, rule, 'Out::%s' % name, b,
+                  good='Out::%s records Command::%s with its parameters in order' % (name, variant),
+                  bad='actor::Out::%s does not push exactly one Command::%s built from its parameters in '
+                      'order (%s)' % (name, variant, detail))
+    b = F.body('actor::Out::<A>::append')
+    ap = b.calls_to('Vec::append')
+    ok = len(ap) == 1 and noref(b.val(ap[0].args[0])).key == 1 and noref(b.val(ap[0].args[1])).key == 2
+    ctx.check(ok, rule, 'Out::append', b, good='Out::append moves all commands of `other` to the end of self',
+              bad='actor::Out::append does not append other\'s commands to self (order/direction wrong)')
+    b = F.body('actor::Out::<A>::broadcast')
+    snd = [c for c in b.calls if c.short.endswith('Out::send')]
+    loop = [c for c in b.calls_to('Iterator::next') if b.in_cycle(c.bb)]
+    ok = len(snd) == 1 and len(loop) == 1 and b.edges_dominate(b.branch(loop[0], 'Some'), snd[0].bb) and \
+        snd[0].bb not in b.reach([e[1] for e in b.branch(loop[0], 'Some')], cut_blocks=[snd[0].bb]) - {snd[0].bb}
+    r = b.reach([e[1] for e in b.branch(loop[0], 'Some')], cut_blocks=[snd[0].bb]) if loop and snd else set()
+    ok = ok and loop[0].bb not in r
+    if ok:
+        from c01 import iter_source
+        src = noref(b.trace_chain(b.val(loop[0].args[0]), []) or b.val(loop[0].args[0]))
+        src = iter_source(b, loop[0])
+        ok = src.kind == 'arg' and src.key == 2
+    ctx.check(ok, rule, 'Out::broadcast', b, good='broadcast sends one message per recipient',
+              bad='actor::Out::broadcast does not send exactly one message to every recipient')
+    # Timers / RandomChoices
+    prim = [('actor::timers::Timers::<T>::set', ('HashSet::insert', 'HashableHashSet::insert'), 2),
+            ('actor::timers::Timers::<T>::cancel', ('HashSet::remove', 'HashableHashSet::remove'), 2),
+            ('actor::timers::Timers::<T>::cancel_all', ('HashSet::clear', 'HashableHashSet::clear'), None),
+            ('actor::model_state::RandomChoices::<Random>::insert', ('HashMap::insert', 'HashableHashMap::insert'), 2),
+            ('actor::model_state::RandomChoices::<Random>::remove', ('HashMap::remove', 'HashableHashMap::remove'), 2)]
+    for path, pats, argn in prim:
+        b = F.body(path)
+        ctx.touched(b)
+        cs = b.calls_to(*pats)
+        ok = len(cs) == 1 and not b.in_cycle(cs[0].bb) and not any(x in b.reach([0], cut_blocks=[cs[0].bb]) for x in b.returns)
+        if ok:
+            recv = noref(b.trace(b.val(cs[0].args[0]), ('DerefMut::deref_mut', 'Deref::deref')))
+            ok = recv.kind == 'arg' and recv.key == 1
+            if argn is not None:
+                ok = ok and noref(b.val(cs[0].args[1])) == V('arg', argn)
+                if path.endswith('::insert') and 'RandomChoices' in path:
+                    ok = ok and noref(b.val(cs[0].args[2])) == V('arg', 3)
+        ctx.check(ok, rule, path.split('::')[-3].split('<')[0] + '::' + path.split('::')[-1], b,
+                  good='%s is exactly %s on its own collection with its own argument' % (path.split('::')[-1], pats[0]),
+                  bad='%s is not a plain %s of its argument on its own collection' % (path, pats[0]))
+    b = F.body('actor::timers::Timers::<T>::iter')
+    it = b.calls_to('HashSet::iter', 'HashableHashSet::iter')
+    ctx.check(len(it) == 1 and not b.calls_to('Iterator::filter', 'Iterator::take', 'Iterator::skip'), rule,
+              'Timers::iter', b, good='Timers::iter enumerates every set timer',
+              bad='Timers::iter does not enumerate all set timers')
+
+
 def run(ctx):
     F = ctx.facts
     ctx.doc('C06-R1', 'variant -> handler table (next_state, format_step), handler of the acting actor with '
@@ -363,3 +441,7 @@ def run(ctx):
         r4_slots(ctx, F)
     with ctx.rule('C06-R5', 'next_state'):
         r5_noop(ctx, F)
+    ctx.doc('C06-R6', 'primitive tables: Out::{send,set_timer,cancel_timer,choose_random,remove_random,append,'
+                      'broadcast}, Timers::{set,cancel,cancel_all,iter}, RandomChoices::{insert,remove}')
+    with ctx.rule('C06-R6', 'primitives'):
+        r6_primitives(ctx, F)
